@@ -5,6 +5,12 @@ import json, glob, os, re, subprocess
 V = '/verif'
 d = json.load(open(f'{V}/known_findings.json'))
 out = []
+man = json.load(open(f'{V}/MANIFEST.json'))
+out.append("### 7.3c The checks as built (supersedes the sizes in the summary table of section 3)\n")
+out.append("| id | engine | technique | explored per run (quick/thorough) |\n|---|---|---|---|")
+for c in man['checks']:
+    out.append(f"| {c['property_id']} | {c['engine']} | {c['technique'].replace('|', '/')} | {c['level_claimed']['text'].replace('|', '/')} |")
+out.append("")
 out.append("### 7.4 Genuine defects repaired (`fix:` commits in /repo)\n")
 log = subprocess.run(['git', '-C', '/repo', 'log', '--format=%h %s', 'd3d8f55..HEAD'], stdout=subprocess.PIPE).stdout.decode().strip().split('\n')
 fixes = [l for l in log if ' fix:' in l[:14]]
